@@ -84,6 +84,11 @@ class GLRParser(Parser):
                 initialized to dict.
         """
 
+        # Coloring of the output (e.g. error messages) is a per-parser setting
+        # kept in a module-level flag. Other parsers constructed in the meantime
+        # might have changed it.
+        t.colors = self.debug_colors
+
         if self.debug:
             a_print("*** PARSING STARTED\n")
             self.debug_frontier = 0
